@@ -628,6 +628,7 @@ pub fn hash_script_data(
 }
 
 // wasm-bindgen can't accept Option without clearing memory, so we avoid exposing this in WASM
+#[allow(unused_variables)]
 pub fn internal_get_implicit_input(
     withdrawals: &Option<Withdrawals>,
     certs: &Option<Certificates>,
@@ -656,7 +657,6 @@ pub fn internal_get_implicit_input(
                         acc.checked_add(&key_deposit)
                     }
                 }
-                CertificateEnum::PoolRetirement(_) => acc.checked_add(&pool_deposit),
                 CertificateEnum::DRepDeregistration(cert) => acc.checked_add(&cert.coin),
                 _ => Ok(acc),
             })?,
@@ -720,7 +720,14 @@ pub fn get_deposit(
     pool_deposit: &BigNum, // // protocol parameter
     key_deposit: &BigNum,  // protocol parameter
 ) -> Result<Coin, JsError> {
-    internal_get_deposit(&txbody.certs, &pool_deposit, &key_deposit)
+    let certificate_deposit = internal_get_deposit(&txbody.certs, &pool_deposit, &key_deposit)?;
+    let mut proposal_deposit = BigNum::zero();
+    if let Some(proposals) = &txbody.voting_proposals {
+        for i in 0..proposals.len() {
+            proposal_deposit = proposal_deposit.checked_add(&proposals.get(i).deposit())?;
+        }
+    }
+    certificate_deposit.checked_add(&proposal_deposit)
 }
 
 #[derive(Debug, Clone, Eq, Ord, PartialEq, PartialOrd)]
